@@ -279,6 +279,19 @@ func runC06(r *mon.Run) {
 		z, cz := repZ(rng)
 		lp := pointRep(P.P, z)
 		w.Case(true, []byte("rt"), []byte(P.Name), b32(z))
+		// values handed out are the caller's: scribble over every returned encoding, encode again
+		for rep := 0; rep < 2; rep++ {
+			c, u := lp.CompressedBytes(), lp.UncompressedBytes()
+			xb, _ := lp.XBytes()
+			if !bytes.Equal(c, oracle.EncodeCompressed(P.P)) || !bytes.Equal(u, oracle.EncodeUncompressed(P.P)) || (!P.P.Inf && !bytes.Equal(xb, b32(P.P.X))) {
+				w.Fail("c06/encode", fmt.Sprintf("encodings of %s[%s] (pass %d, after the previously returned slices were overwritten by the caller): compressed %x uncompressed %x x %x", P.Name, cz, rep, c, u, xb), "P", P.P, "z", hb(z))
+			}
+			for _, b := range [][]byte{c, u, xb} {
+				for j := range b {
+					b[j] ^= 0x5a
+				}
+			}
+		}
 		for _, enc := range [][]byte{lp.CompressedBytes(), lp.UncompressedBytes()} {
 			q, err := secp256k1.NewPointFromBytes(enc)
 			if err != nil {
